@@ -111,3 +111,37 @@ pub enum OddInput {
     Num(i64),
     Word(String),
 }
+
+/// Two stacks of the same element type whose builder names are *each other's field names*:
+/// `with_locals_*` configures the field `globals` and vice versa.
+#[derive(Default, Debug, Clone, PartialEq)]
+#[push::push_state(!has_stack, builder)]
+pub struct Crossed {
+    #[stack(exec)]
+    pub exec: Stack<u8>,
+    #[stack(builder_name = locals)]
+    pub globals: Stack<i64>,
+    #[stack(builder_name = globals)]
+    pub locals: Stack<i64>,
+}
+
+/// Extra, non-annotated fields and a hand-written `Default` that gives them non-trivial values:
+/// a built state keeps them.
+#[derive(Debug, Clone, PartialEq)]
+#[push::push_state(!has_stack, builder)]
+pub struct Extra {
+    #[stack(exec)]
+    pub exec: Stack<u8>,
+    pub fuel: u32,
+    #[stack]
+    pub nums: Stack<i64>,
+    pub label: String,
+    #[instruction_step_limit]
+    pub lim: usize,
+}
+
+impl Default for Extra {
+    fn default() -> Self {
+        Self { exec: Stack::default(), fuel: 1000, nums: Stack::default(), label: "fresh".to_string(), lim: 0 }
+    }
+}
